@@ -1,2 +1,4 @@
 import JaqalProofs.Props.C15
 import JaqalProofs.Props.C03
+import JaqalProofs.Props.C01Literals
+import JaqalProofs.Props.C19
